@@ -70,6 +70,8 @@ def pTx : List String → Option (Tx × List String)
     let (phs, ts) ← takeN pHex n ts
     let (n, ts) ← pCount ts
     let (pds, ts) ← takeN pStr n ts
+    -- a copied coinbase carries its lock time (8 hex digits); the model reads it as decimal
+    let pds := if k == .coinbase then pds.map fun d => toString ((hexNat? d).getD 0) else pds
     pure ({ id := id, kind := k, pver := pv, ins := ins, outs := outs, phashes := phs, pdatas := pds }, ts)
   | _ => none
 
